@@ -23,6 +23,12 @@ STEP_BOUNDS = {"all": {"round_abstract": 1},
 BASKET_BOUNDS = {"all": {"round_abstract": 1, "dec_coeff_form": 1},
                  "quick": {"list": 1, "iter": 1, "exp_lo": -12, "exp_hi": 12, "digits": 45},
                  "thorough": {"list": 2, "iter": 1, "exp_lo": -12, "exp_hi": 12, "digits": 45}}
+# exponents of decimal strings -7..1: stored amounts have at most 6 places (credit type precision is
+# locked to 6) and are rendered in plain notation; requests outside the window are outside these runs
+BASKET_TWO_TAKE = {"all": {"round_abstract": 1, "dec_coeff_form": 1, "list": 1, "iter": 2, "exp_lo": -7, "exp_hi": 1, "digits": 45}}
+BASKET_TWO_PUT = {"all": {"round_abstract": 1, "dec_coeff_form": 1, "list": 2, "iter": 1, "exp_lo": -7, "exp_hi": 1, "digits": 45}}
+# the six message handlers of the basket service (the Two variants are registered separately)
+BASKET_STEPS = "Step_Basket(Create|Put|Take|UpdateBasketFee|UpdateCurator|UpdateDateCriteria)$"
 BASKET_BOUNDS_L1 = {"all": {"round_abstract": 1, "dec_coeff_form": 1, "list": 1, "iter": 1, "exp_lo": -12, "exp_hi": 12, "digits": 45}}
 # ValidateGenesis on the table model: at most iter rows per table
 GENESIS_BOUNDS = {"all": {"round_abstract": 1, "dec_coeff_form": 1, "list": 1, "exp_lo": -12, "exp_hi": 12, "digits": 45},
@@ -70,12 +76,29 @@ STEP_BOUNDS_L2 = {"all": {"round_abstract": 1},
                   "quick": {"list": 2, "iter": 2, "exp_lo": -12, "exp_hi": 12, "digits": 45}}
 
 
-def step_runs():
-    return [
+def step_runs(quick_extra=()):
+    """quick_extra: two-row variants that this property's quick tier runs as well ("put2": a Put of
+    two credits, "buy2": a BuyDirect of two orders, both with the light obligation set); the
+    thorough tier of every property runs all of them."""
+    return _step_runs(quick_extra)
+
+
+def _step_runs(quick_extra):
+    put2_tiers = ["quick", "thorough"] if "put2" in quick_extra else ["thorough"]
+    buy2 = [{"module": "ecocredit", "pkg": "./marketplace/keeper", "harness": "Step_MarketBuyDirectTwoLight", "bounds": BUYTWO_BOUNDS,
+             "tiers": ["quick"], "timeout_ms": {"quick": 60000}, "budget_s": {"quick": 3000}}] if "buy2" in quick_extra else []
+    return buy2 + [
         {"module": "ecocredit", "pkg": "./base/keeper", "harness": "Step_.*", "bounds": STEP_BOUNDS},
         {"module": "ecocredit", "pkg": "./base/keeper", "harness": QUICK_BASE_L2, "bounds": STEP_BOUNDS_L2, "tiers": ["quick"]},
-        {"module": "ecocredit", "pkg": "./basket/keeper", "harness": "Step_.*", "bounds": BASKET_BOUNDS,
+        {"module": "ecocredit", "pkg": "./basket/keeper", "harness": BASKET_STEPS, "full_service": True, "bounds": BASKET_BOUNDS,
          "timeout_ms": {"quick": 20000, "thorough": 60000}},
+        # two-row variants with the light obligation set (C01/C04/C05/C06/C11): a Take that spans two
+        # basket balances (needs iter=2: a basket with two balances) and a Put of exactly two credits;
+        # about 20 and 12 minutes, thorough tier only
+        {"module": "ecocredit", "pkg": "./basket/keeper", "harness": "Step_BasketTakeTwo$", "bounds": BASKET_TWO_TAKE, "tiers": ["thorough"],
+         "timeout_ms": {"thorough": 60000}, "budget_s": {"thorough": 5400}},
+        {"module": "ecocredit", "pkg": "./basket/keeper", "harness": "Step_BasketPutTwo$", "bounds": BASKET_TWO_PUT, "tiers": put2_tiers,
+         "timeout_ms": {"quick": 60000, "thorough": 60000}, "budget_s": {"quick": 3000, "thorough": 5400}},
         # marketplace: everything but BuyDirect with two list elements / two iterator rows in both
         # tiers; BuyDirect (20 minutes) with one entry, and with two entries in the fee-less,
         # moderate-price configuration (BuyDirectTwo), in the thorough tier only
@@ -107,11 +130,11 @@ STEP_TECH = "one-step inductive invariant over all message handlers: go/ssa symb
 PROPS = {
     "C01": {"title": "credit conservation", "runs": step_runs(), "technique": STEP_TECH},
     "C02": {"title": "issuance accounting", "runs": step_runs(), "technique": STEP_TECH},
-    "C03": {"title": "ownership safety", "runs": step_runs(), "technique": STEP_TECH + "; frame condition for a skolem non-signer account"},
+    "C03": {"title": "ownership safety", "runs": step_runs(("buy2",)), "technique": STEP_TECH + "; frame condition for a skolem non-signer account"},
     "C04": {"title": "retirement permanence", "runs": step_runs(), "technique": STEP_TECH + "; monotonicity per step"},
-    "C05": {"title": "basket tokens fully backed", "runs": step_runs(), "technique": STEP_TECH},
-    "C06": {"title": "escrow equals open sell orders", "runs": step_runs(), "technique": STEP_TECH},
-    "C07": {"title": "BuyDirect settles exactly", "runs": [kernel_cost(), kernel_rounding()] + step_runs(),
+    "C05": {"title": "basket tokens fully backed", "runs": step_runs(("put2",)), "technique": STEP_TECH},
+    "C06": {"title": "escrow equals open sell orders", "runs": step_runs(("buy2",)), "technique": STEP_TECH},
+    "C07": {"title": "BuyDirect settles exactly", "runs": [kernel_cost(), kernel_rounding()] + step_runs(("buy2",)),
             "technique": "go/ssa symbolic execution of the cost/fee kernel against exact rationals + SMT (non-linear real/integer arithmetic), plus the BuyDirect step harness"},
     "C08": {"title": "authorisation and sealed batches", "runs": step_runs() + [data_step_run()],
             "technique": STEP_TECH + "; role predicate on the pre-state for every successful path (ecocredit services and the data service)"},
@@ -128,7 +151,7 @@ PROPS = {
                       "budget_s": {"thorough": 7200}},
                      {"module": "data", "pkg": "./server", "harness": "C10_.*", "bounds": DATA_BOUNDS}],
             "technique": "self-composition by go/ssa symbolic execution: every handler is executed twice from the same arbitrary pre-state, request and block time with map iteration order and wall clock chosen independently; final table contents, coins, events, outcome and response are compared and writes to per-process memory are reported + SMT"},
-    "C11": {"title": "basket admission, oldest first, auto-retire", "runs": step_runs(),
+    "C11": {"title": "basket admission, oldest first, auto-retire", "runs": step_runs(("put2",)),
             "technique": STEP_TECH + "; Take on finite-witness iterators ordered by the start-date index"},
     "C12": {"title": "expired orders refunded, begin block never fails", "runs": step_runs(), "technique": STEP_TECH + "; PruneSellOrders on finite-witness iterators"},
     "C13": {"title": "bridge safety", "runs": step_runs(), "technique": STEP_TECH},
